@@ -103,6 +103,10 @@ def parseBackend (s : Schema) (j : Json) : Backend :=
     tables := (jFields (jObj j "tables")).map fun (name, tj) =>
       (name, parseRows ((s.table? name).getD { name := name, cols := [] }) tj) }
 
+/-- `Config.SetServiceAuthorization` / `SetGroupAuthorization` read the setting without regard to case
+    (the caller maps anything that is neither `loose` nor `strict` to the setting's default) -/
+def authSetting (v : String) : String := v.toLower
+
 def parseReply (j : Json) : List ReplyRow :=
   let cols := jStrs j "cols"
   (jArr j "rows").map fun row =>
@@ -117,13 +121,13 @@ def parseSyncedBackend (s : Schema) (j : Json) : Backend :=
 
 def parseSyncedDataset (s : Schema) (j : Json) : Dataset :=
   { backends := (jArr j "backends").map (parseSyncedBackend s),
-    serviceAuthLoose := jStr j "service_auth" != "strict",
-    groupAuthLoose := jStr j "group_auth" == "loose" }
+    serviceAuthLoose := authSetting (jStr j "service_auth") != "strict",
+    groupAuthLoose := authSetting (jStr j "group_auth") == "loose" }
 
 def parseDataset (s : Schema) (j : Json) : Dataset :=
   { backends := (jArr j "backends").map (parseBackend s),
-    serviceAuthLoose := jStr j "service_auth" != "strict",
-    groupAuthLoose := jStr j "group_auth" == "loose" }
+    serviceAuthLoose := authSetting (jStr j "service_auth") != "strict",
+    groupAuthLoose := authSetting (jStr j "group_auth") == "loose" }
 
 /-! ### acceptance of a result against a sorted pool with tie classes -/
 
